@@ -36,7 +36,7 @@ Qed.
 Lemma apply_group_step g r p a2 i0 j0 i' j' :
   chain a b g i0 j0 i' j' -> g <> [] -> p <= i0 ->
   apply_hunks (group_hunk a b g :: r) (skipn p a2) (S p) =
-    if length (skipn p a2) <? i0 - p then inl AExhausted else
+    if length (skipn p a2) <? i0 - p then inl (AConflict (S p + length (skipn p a2))) else
     match apply_lines (flat_map (op_hlines a b) g) (skipn i0 a2) (S i0) with
     | inl e => inl e
     | inr (out, rest1, ln1) =>
@@ -84,12 +84,12 @@ Proof.
   - eapply IH; eauto.
 Qed.
 
-(* an error on a text at least as long as a is a conflict *)
+(* every error is a conflict *)
 Lemma apply_err_conflict gs : forall p q a2 e,
-  gchain a b gs p q -> p <= length a -> length a <= length a2 ->
+  gchain a b gs p q -> p <= length a ->
   apply_hunks (map (group_hunk a b) gs) (skipn p a2) (S p) = inl e -> exists k, e = AConflict k.
 Proof.
-  induction gs as [|g r IH]; intros p q a2 e H Hp HL A; [discriminate|].
+  induction gs as [|g r IH]; intros p q a2 e H Hp A; [discriminate|].
   simpl in H. destruct H as (i0 & j0 & i' & j' & Hne & G & C & R).
   destruct G as (G1 & G2 & G3 & G4 & G5 & G6).
   pose proof (chain_mono _ _ _ _ _ _ _ C) as [M1 M2].
@@ -98,9 +98,9 @@ Proof.
   cbn [map] in A. rewrite (apply_group_step g _ p a2 i0 j0 i' j' C Hne G1) in A.
   assert (LS : length (slice a i0 i') = i' - i0) by (apply slice_length; lia).
   destruct (length (skipn p a2) <? i0 - p) eqn:LT.
-  { apply Nat.ltb_lt in LT. rewrite skipn_length in LT. lia. }
+  { inversion A; eauto. }
   destruct (apply_lines (flat_map (op_hlines a b) g) (skipn i0 a2) (S i0)) as [e1|[[o1 r1] l1]] eqn:AL.
-  - inversion A; subst e1. eapply apply_lines_long; [|exact AL]. rewrite O, LS, skipn_length. lia.
+  - inversion A; subst e1. eapply apply_lines_err; exact AL.
   - apply apply_lines_inv in AL as (K1 & K2 & K3). rewrite O in K1, K3.
     assert (R1 : r1 = skipn i' a2).
     { replace i' with (i0 + (i' - i0)) by lia. rewrite skipn_add, K1, <- LS. symmetry. apply skipn_app_exact. }
@@ -135,14 +135,13 @@ Proof.
   rewrite Forall_forall in A. exact (D (A g I)).
 Qed.
 
-(* ... and on a text that is not shorter than a the outcome is a PatchConflict *)
-Theorem mismatch_is_conflict_guarded a b ops n a2 g :
+(* ... and the outcome is a PatchConflict, whatever the length of the text *)
+Theorem mismatch_is_conflict a b ops n a2 g :
   valid_opcodes a b ops = true -> In g (group_opcodes n ops) ->
   slice a2 (g_i1 g) (g_i2 g) <> slice a (g_i1 g) (g_i2 g) ->
-  length a <= length a2 ->
   exists k, apply a2 (mk_hunks a b ops n) = inl (AConflict k).
 Proof.
-  intros V I D L.
+  intros V I D.
   destruct (apply a2 (mk_hunks a b ops n)) as [e|x] eqn:A.
   - unfold apply in A. rewrite apply_mk_hunks in A.
     destruct (apply_hunks (map (group_hunk a b) (group_opcodes n ops)) a2 1) as [e1|[[o r] l]] eqn:E; [|discriminate].
@@ -152,18 +151,8 @@ Proof.
   - exfalso. eapply mismatch_not_ok; eauto.
 Qed.
 
-(* without the length guard the claim "always a conflict" is false: the text may simply run out *)
 Definition la : line := [97; 10]%N.
 Definition lb : line := [98; 10]%N.
-Lemma mismatch_is_conflict_refuted :
-  exists a b ops n a2 g,
-    valid_opcodes a b ops = true /\ In g (group_opcodes n ops) /\
-    slice a2 (g_i1 g) (g_i2 g) <> slice a (g_i1 g) (g_i2 g) /\
-    apply a2 (mk_hunks a b ops n) = inl AExhausted.
-Proof.
-  exists [la], [lb], [Op TReplace 0 1 0 1], 3, [], [Op TReplace 0 1 0 1].
-  split; [reflexivity|]. split; [left; reflexivity|]. split; [discriminate|reflexivity].
-Qed.
 
 (* ------------------------------------------------------------------ statistics *)
 Definition ins_len (o : opcode) : nat :=
